@@ -58,6 +58,12 @@ JsonMutations(t) ==
   \cup (IF t = "SecretKeyShare" THEN {}
         ELSE {ML("point", i - 1, c) : i \in 1..CountKind(t, PointKinds \cup {"share"}), c \in PointClasses})
   \cup {ML("scalar", i - 1, c) : i \in 1..CountKind(t, {"scalar"}), c \in ScalarClasses}
+  \* the document *shape* around the leaves: a repeated key, an unknown key, keys in another order, the fields as an
+  \* array, a null / number / nested object where a string is expected, text wrapped in blanks.  What serde makes of
+  \* these is not fixed by any property (unknown keys are ignored today, a sequence is accepted for a struct), so the
+  \* verdict is unconstrained ("Any" = Ok or Err); the decoder must not abort, all front ends must agree, and whatever decodes is
+  \* a value every consumer can take
+  \cup {M("shape", "", c) : c \in {"dupkey", "extrakey", "reorder", "array", "null", "number", "nested", "blanks", "deep"}}
 
 Mutations(t, codec) == IF codec = "json" THEN JsonMutations(t) ELSE BinMutations(t)
 
@@ -102,6 +108,7 @@ Decode(t, codec, variant, m) ==
     [] m.kind = "tag"    -> Res(TagOutcome(FieldKind(t, m.field), m.class, codec), (m.class = OwnTag(t, variant, m.field)) \/ (FieldKind(t, m.field) \in {"tag_scheme", "tag_share"} /\ variant = "Pop" /\ m.class \notin {"0", "1"} /\ (FieldKind(t, m.field) = "tag_scheme" \/ codec = "bytes")), "-")
     [] m.kind = "id"     -> Res("Ok", FALSE, IF m.class = "0" THEN "Err" ELSE "Ok")
     [] m.kind = "varlen" -> Res("Err", FALSE, "-")
+    [] m.kind = "shape"  -> Res("Any", FALSE, "-")        \* Ok or Err, nothing else
     [] m.kind = "hex"    -> IF m.class = "upper" THEN Res("Ok", TRUE, IF ty.lazy THEN "Ok" ELSE "-") ELSE Res("Err", FALSE, "-")
 
 \* ------------------------------------------------------------ system
@@ -191,7 +198,7 @@ ExactLength == (Judged /\ last.mut.kind = "extend" /\ last.codec = "bytes" /\ la
 \* C16: imported secrets are never zero and never non-canonical
 NoZeroSecret == (Judged /\ last.mut.kind = "scalar" /\ last.codec = "bytes" /\ last.secret /\ last.mut.class = "zero") => last.expect.res = "Err"
 \* C17: every outcome is a value or an error - never an abort (the decoder has no "Abort" outcome)
-NoAbort == /\ Judged => last.expect.res \in {"Ok", "Err"}
+NoAbort == /\ Judged => last.expect.res \in {"Ok", "Err", "Any"}
            /\ last.act = "IsZero" => (last.expect.plain \in {"Some", "None"} /\ last.expect.checked \in {"Some", "None"})
 ZeroTestExact == last.act = "IsZero" => ((last.expect.plain = "None") <=> (last.orv = 0))
 
